@@ -7373,8 +7373,12 @@ class TensorDictBase(MutableMapping):
         )
         keys_vals = tuple(zip(*items))
         if not keys_vals:
-            return (), ()
-        keys, vals = keys_vals
+            if sorting_keys is None:
+                return (), ()
+            # no leaves: the sorting keys / default are still to be honoured
+            keys, vals = (), ()
+        else:
+            keys, vals = keys_vals
         if sorting_keys is None:
             return list(keys), list(vals)
         if default is None:
